@@ -1,5 +1,5 @@
 (* The C05 oracle accepts what the model produces (ring cases in full; pipeline runs: the prefix test of the
-   oracle holds on every reachable model state without a gap). *)
+   oracle holds on every reachable model state). *)
 From Coq Require Import ZifyN ZifyNat ZifyBool Sorted.
 From KB Require Import Base.Cases Model.WatchSys Model.C05Cases Proofs.WatchRing Proofs.WatchSys.
 Local Open Scope N_scope.
@@ -25,8 +25,8 @@ Proof.
   replace (0 <? l) with true by (symmetry; apply N.ltb_lt; exact Hl). rewrite Hc. reflexivity.
 Qed.
 
-(* on every reachable model state the oracle's prefix test succeeds for every accepted watcher without a gap *)
+(* on every reachable model state the oracle's prefix test succeeds for every accepted watcher *)
 Theorem model_passes_prefix_test pa l c0 ls i w :
-  0 < l -> nth_error (s_ws (run pa ls (init l c0))) i = Some w -> accepted w = true -> w_gap w = false ->
+  0 < l -> nth_error (s_ws (run pa ls (init l c0))) i = Some w -> accepted w = true ->
   prefixb (concat (w_got w)) (ideal (w_S w) (w_P w) (w_base w) (s_cached (run pa ls (init l c0)))) = true.
-Proof. intros. apply is_prefix_prefixb. apply (prefix_nogap pa l c0 ls i w); assumption. Qed.
+Proof. intros. apply is_prefix_prefixb. apply (prefix_full pa l c0 ls i w); assumption. Qed.
